@@ -102,6 +102,31 @@ Theorem xeval_is_abstract_evaluation : forall (K : Type) (x64 : bool) (info : in
 Proof. exact xeval_seval. Qed.
 Print Assumptions xeval_is_abstract_evaluation.
 
+(* ---------- the scalar construction paths ---------- *)
+(* k * A (A * k, -A, A - B go the same way) and A / k build HomothetyOperator(value, A.out_structure()) @ A where the
+   value has the type `scalar_param_ty x64 path t` computed from the type t of the scalar the user wrote (k itself:
+   a Python scalar stays weakly typed; 1 / k for a quotient).  If that type is absorbed by EVERY leaf of the output
+   structure of A - leaf by leaf, the leaves of a mixed-precision pytree each keep their own dtype - and A evaluates
+   to its declared structure, then so does the product, with the structures of A. *)
+Theorem scalar_product_honest : forall (K : Type) (x64 : bool) (info : infos) (path : spath) (t : ty) i j (k : K) (e : op K),
+  ilookup info i = Some (scalar_pinfo x64 path t) ->
+  xeval x64 info e (in_struct e) = Some (out_struct e) ->
+  forallb (absorbs x64 (scalar_param_ty x64 path t)) (flatten (out_struct e)) = true ->
+  let r := Comp j [Homoth i k (out_struct e); e] in
+  in_struct r = in_struct e /\ out_struct r = out_struct e /\ xeval x64 info r (in_struct r) = Some (out_struct r).
+Proof. intros K x64 info path t i j k e. exact (scaled_honest_l K x64 info i j k (scalar_pinfo x64 path t) e). Qed.
+Print Assumptions scalar_product_honest.
+(* A = A1 @ ... @ An: the scalar operator is prepended to the operands *)
+Theorem scalar_product_of_composition_honest : forall (K : Type) (x64 : bool) (info : infos) (path : spath) (t : ty) i j j' (k : K) (l : list (op K)),
+  l <> [] -> ilookup info i = Some (scalar_pinfo x64 path t) ->
+  let e := Comp j' l in
+  xeval x64 info e (in_struct e) = Some (out_struct e) ->
+  forallb (absorbs x64 (scalar_param_ty x64 path t)) (flatten (out_struct e)) = true ->
+  let r := Comp j (Homoth i k (out_struct e) :: l) in
+  in_struct r = in_struct e /\ out_struct r = out_struct e /\ xeval x64 info r (in_struct r) = Some (out_struct r).
+Proof. intros K x64 info path t i j j' k l. exact (scaled_comp_honest_l K x64 info i j j' k (scalar_pinfo x64 path t) l). Qed.
+Print Assumptions scalar_product_of_composition_honest.
+
 (* ---------- composites: the structures are those implied by the parts ---------- *)
 Theorem composite_structs : forall (K : Type) (i : N),
   (forall (l : list (op K)) d, l <> [] -> in_struct (Comp i l) = in_struct (last l d) /\ out_struct (Comp i l) = out_struct (hd d l)) /\
@@ -163,6 +188,27 @@ Example params_not_wider_needed_dtype :
   let info := [(1%N, mkPinfo f64 [] [])] in
   wfo e = true /\ dtypes_available true e = true /\ params_not_wider true info e = false /\
   xeval true info e (in_struct e) = Some v5d /\ out_struct e = v5.
+Proof. vm_compute. repeat split. Qed.
+(* mixed-precision output {float16[3], float32[3]} (an index operator X: [0, 2, 2]) scaled by a scalar.
+   3 * X with the Python int 3 (weak int32): every leaf keeps its dtype, the hypotheses of scalar_product_honest hold;
+   the same scalar cast to the PROMOTED dtype of the output (a strongly typed float32) is wider than the float16 leaf:
+   mv returns {float32[3], float32[3]} while {float16[3], float32[3]} is declared;  X / 2 (Python int): 1 / 2 is a weak
+   float, honest;  X / np.int32(2): 1 / k is a strongly typed float32, wider than the float16 leaf *)
+Definition lo_hi (n : nat) : struct := Node (KDict ["hi"%string; "lo"%string]) [Leaf (mkSds [n] 0); Leaf (mkSds [n] 4)].
+Definition wint : ty := ST.mkTy ST.DI32 true.
+Definition sint : ty := ST.mkTy ST.DI32 false.
+Example scalar_paths_mixed_precision :
+  let x : op Z := Prim 2%N CIndex (lo_hi 4) (lo_hi 3) PNone in
+  let r : op Z := Comp 3%N [Homoth 1%N 3%Z (lo_hi 3); x] in
+  let widened := Node (KDict ["hi"%string; "lo"%string]) [Leaf (mkSds [3] 0); Leaf (mkSds [3] 0)] in
+  let inf p t := [(1%N, scalar_pinfo false p t)] in
+  out_struct r = lo_hi 3 /\
+  forallb (absorbs false (scalar_param_ty false SMul wint)) (flatten (out_struct x)) = true /\
+  params_not_wider false (inf SMul wint) r = true /\ xeval false (inf SMul wint) r (in_struct r) = Some (lo_hi 3) /\
+  params_not_wider false (inf SMul f32) r = false /\ xeval false (inf SMul f32) r (in_struct r) = Some widened /\
+  scalar_param_ty false SDiv wint = ST.mkTy ST.DF32 true /\ xeval false (inf SDiv wint) r (in_struct r) = Some (lo_hi 3) /\
+  scalar_param_ty false SDiv sint = f32 /\ xeval false (inf SDiv sint) r (in_struct r) = Some widened /\
+  scalar_param_ty true SDiv wint = ST.mkTy ST.DF64 true /\ xeval true (inf SDiv wint) r (in_struct r) = Some (lo_hi 3).
 Proof. vm_compute. repeat split. Qed.
 (* the constructor check is needed and is about EVERY leaf: one value at destination axis 1 of
    {'ground': float32[3], 'tod': float32[3,1]} - the axis lies past the last axis of 'ground', which would come
